@@ -211,7 +211,7 @@ def obj_churn(rng, nops, kind):
 
 
 # ----------------------------------------------------------------------------- object histories
-FORMS = ["foreach", "foreachc", "iterator", "tostring", "visit", "lh"]
+FORMS = ["foreach", "foreachc", "iterator", "tostring", "visit", "lh", "lhsafe"]
 
 
 def obj_history(rng, nops, kind=None):
